@@ -28,6 +28,10 @@ func kindOf(r rules.Rule) string {
 	return "?"
 }
 
+// c11UnicodeEdges is set for one storage in ten (the model declines non-ASCII trimming; such storages are decided
+// by the Go-side scan / retrieve / line-by-line oracles alone).
+var c11UnicodeEdges bool
+
 func c11Line(g *Gen) string {
 	switch g.Intn(14) {
 	case 0:
@@ -52,6 +56,19 @@ func c11Line(g *Gen) string {
 	case 6:
 		return "! " + strings.Repeat("c", Pick(g, []int{4094, 4095, 4096, 5000, 5001, 4093, 66000}))
 	case 7:
+		if c11UnicodeEdges && g.Chance(1, 2) {
+			// white space of every kind at the edges of a line (Unicode White_Space, not only Latin-1): scanning and
+			// retrieval trim the same way, whatever that way is
+			sp := []string{"\u3000", "\u205f", "\u2028", "\u00a0", "\u0085", "\u1680", "\u2003", "\u202f", "\v", "\f", "\u200b", "\ufeff"}
+			l := Pick(g, []string{genNetworkRule(g), "hostonly.example", "0.0.0.0 blocked.example", "! comment", "example.org##.ad"})
+			if g.Bool() {
+				l = Pick(g, sp) + l
+			}
+			if g.Bool() {
+				l += Pick(g, sp)
+			}
+			return l
+		}
 		return Pick(g, []string{" ", "\t"}) + genNetworkRule(g) + Pick(g, []string{" ", "\t", "  "})
 	default:
 		return genNetworkRule(g)
@@ -93,6 +110,7 @@ func init() {
 				n = 12000
 			}
 			for i := 0; i < n; i++ {
+				c11UnicodeEdges = i%10 == 3
 				k := 1 + g.Intn(4)
 				used := map[int]bool{}
 				var parts []string
